@@ -1839,8 +1839,11 @@ def measure_reinit_policy(repo):
         m = re.search(r"libvm_execute_build_in\s*\(.*?feclearexcept\s*\(([^)]*)\)", src, re.S)
         m2 = re.search(r"fetestexcept\s*\(([^)]*)\)", src[m.end():]) if m else None
         if m and m2:
-            # every feclearexcept call of the prologue (function head up to the `switch`) counts: the mask may be cleared in several calls
-            out["cleared"], out["tested"] = sorted(flagset(" ".join(re.findall(r"feclearexcept\s*\(([^)]*)\)", re.split(r"\bswitch\b", src[m.start():m.end() + m2.start()])[0])))), sorted(flagset(m2.group(1)))
+            # every feclearexcept call of the prologue (function head up to the `switch`) counts: the mask may be cleared in several calls;
+            # every fetestexcept call of the function counts: the flags may be read one by one into locals, in any order
+            end = src.find("\n}\n", m.end())
+            tested = " ".join(re.findall(r"fetestexcept\s*\(([^)]*)\)", src[m.end():end if end > 0 else len(src)]))
+            out["cleared"], out["tested"] = sorted(flagset(" ".join(re.findall(r"feclearexcept\s*\(([^)]*)\)", re.split(r"\bswitch\b", src[m.start():m.end() + m2.start()])[0])))), sorted(flagset(tested))
             out["tested_subset_of_cleared"] = set(out["tested"]) <= set(out["cleared"])
     except OSError:
         pass
@@ -1858,8 +1861,18 @@ def measure_reinit_policy(repo):
         w = re.search(r"while \(\(path = strtok.*", m.group(0), re.S) if m else None
         found = re.search(r"if \(ffile != NULL\)\s*\{(.*?)break;", w.group(0), re.S) if w else None
         if found:
-            out["cwd_restore_on_found"] = "chdir(cwd)" in found.group(1)
-            out["cwd_restore_on_miss"] = "chdir(cwd)" in w.group(0)[found.end():]
+            # `chdir(cwd)` itself, or a call `f(cwd, ...)` of a function of this file whose body calls chdir exactly once, on its first
+            # parameter:  static void restore_cwd(const char * cwd) { int ret = chdir(cwd); if (ret < 0) { <warning> } }
+            restorers = []
+            for hm in re.finditer(r"^(?:static\s+)?(?:inline\s+)?(?:void|int)\s+(\w+)\s*\(\s*(?:const\s+)?char\s*\*\s*(\w+)\s*[,)][^{;]*\{(.*?)^\}", lex, re.S | re.M):
+                if hm.group(1) != "fopen_path" and re.search(r"\bchdir\s*\(\s*%s\s*\)" % re.escape(hm.group(2)), hm.group(3)) \
+                        and len(re.findall(r"\bchdir\s*\(", hm.group(3))) == 1 and not re.search(r"\breturn\b[^;]*;[^}]*\bchdir\b", hm.group(3), re.S):
+                    restorers.append(hm.group(1))
+            back = re.compile(r"\bchdir\s*\(\s*cwd\s*\)" + "".join(r"|\b%s\s*\(\s*cwd\s*[,)]" % re.escape(h) for h in restorers))
+            out["cwd_restore_on_found"] = back.search(found.group(1)) is not None
+            out["cwd_restore_on_miss"] = back.search(w.group(0)[found.end():]) is not None
+            if restorers:
+                out["cwd_restore_helpers"] = restorers
     except OSError:
         pass
     return out
